@@ -204,7 +204,7 @@ pub fn run(out: &Path, seed: u64, thorough: bool) -> Result<(), Box<dyn std::err
     }
     let meta = json!({
         "files": [], "evaluations": evaluations, "distinct_nontrivial": n,
-        "rule": "generated histories with blocks of up to 9 transactions and uncommitted multi-block ranges, each run in two OS processes (independent SipHash seeds for every HashMap, different directories; the second commits and restarts half-way): the answer of every indexer call and the full observation (every read method over the universe) at every block boundary must be identical, mineTimestamp zeroed, arrays NOT sorted. Plus the pinned corpus of /verif/golden: a fixed history and request list whose canonical answers hash to the recorded sha256 for this protocol version.",
+        "rule": "generated histories with blocks of up to 9 transactions and uncommitted multi-block ranges, each run in two OS processes (independent SipHash seeds for every HashMap, different directories; the second commits and restarts half-way): the answer of every indexer call and the full observation (every read method over the universe) at every block boundary must be identical, mineTimestamp zeroed, arrays NOT sorted; for every second history a third process with EVM_RECORD_TRACES off: every answer except the trace answers themselves must equal the first process. Plus the pinned corpus of /verif/golden: a fixed history and request list whose canonical answers hash to the recorded sha256 for this protocol version.",
         "boundaries_compared": boundaries, "golden_corpora_checked": golden_checked, "distribution": dist,
         "samples": samples, "impl_failures": failures,
     });
